@@ -46,10 +46,12 @@ CLAIMED = {
     'C08': {
         'text': 'Deductive proof (Verus): acyclicity of variable-to-variable chains is a pre/postcondition of the verbatim unify (every exit, including both loops and the recursive calls), '
                 'via lemma_bind_keeps_acyclic (binding an unbound x to a non-variable, or to a variable whose chain does not end at x, keeps all chains finite). Unbounded in sequence length: '
-                'the invariant composes over any sequence of successful unifications. Chain-walking functions get decreases clauses in unit subst.',
-        'note': 'Trusted: T1, T2, T4, T5. Termination of replace_variables / Display (recursion through structures) is not covered.',
+                'the invariant composes over any sequence of successful unifications. Chain-walking functions get decreases clauses in unit subst. '
+                'Resolving an answer: replace_variables (verbatim body, unit replace) terminates - decreases (size of the value under a solution, rank along chains) - for every term and every binding set whose chains end and which has a finite solution '
+                '(the statement\'s "needs no occurs check"); the result has the same value under every solution and contains no bound variable.',
+        'note': 'Trusted: T1, T2, T4, T5. Not covered: Display / format_solution; that unify preserves solvability (it does not: $X = f($X) succeeds - the occurs-check exclusion of the statement); termination of unify itself.',
         'technique': 'contract-based deductive verification (Verus) of extracted real code',
-        'design_ref': 'DESIGN.md 5/C08',
+        'design_ref': 'DESIGN.md 5/C08 and 8.15',
     },
     'C09': {
         'text': 'Deductive proof (Verus): postcondition of the verbatim unify - if either operand is $_ the result is Some of the identical substitution set (same Rc). '
